@@ -178,6 +178,10 @@ func Mutate(r *Rand, doc *GDoc) *Mutation {
 			}
 			body, end := lineBody(ls[i])
 			extra := Pick(r, []string{" foo", " (8h!) x", " 1h", "\tbar", " (8h!)(8h!)"})
+			if len(body) == 10 && r.P(1, 4) { // a should-total glued to the date: the separating blank is mandatory
+				ls[i] = body + Pick(r, []string{"(8h!)", "(-30m!)", "(8h!) "}) + end
+				return &Mutation{"headline-text", join(), i}
+			}
 			if r.P(1, 3) { // very long line: the faulty text lies far right of column 80
 				extra = strings.Repeat(Pick(r, []string{" ", " ", "\t"}), 60+r.Intn(200)) + strings.TrimLeft(extra, " \t") + strings.Repeat("x", r.Intn(120))
 			}
